@@ -21,7 +21,9 @@ fn like<A: Encode + EncodeLike<B>, B: Encode + Decode + Uni>(cx: &mut Cx, fam: &
 	let r = catch_unwind(AssertUnwindSafe(|| {
 		let ea = a.encode();
 		let eb = b.encode();
-		let d = B::decode(&mut &ea[..]).ok();
+		let mut rest = &ea[..];
+		// the target's decoder must take all of what A produced, and nothing else
+		let d = B::decode(&mut rest).ok().filter(|_| rest.is_empty());
 		(ea, eb, d)
 	}));
 	match r {
